@@ -91,6 +91,25 @@ def drive(tier):
                     kk, res = call(key.pub.verify, d2, sg)
                     R.add("key.verify", {"pub": b2l(key.pub), "digest": b2l(d2), "sig": b2l(sg), "case": name},
                           {"k": "ret", "res": bool(res)} if kk == "ret" else dict(exc_info(res), k="exc"), _cost=1000)
+    # a few thousand signatures judged on their encoding alone (rare encodings: about 1 in 500 has a short S)
+    nsig = 3000 if tier == "quick" else 40000
+    ksig = CBitcoinSecret.from_secret_bytes(keys[-1], True)
+    for start in range(0, nsig, 500):
+        sigs = []
+        for j in range(500):
+            kk, sg = call(ksig.sign, hashlib.sha256(b"%d" % (start + j)).digest())
+            sigs.append(b2l(sg) if kk == "ret" and isinstance(sg, bytes) else [0])
+        R.add("key.signform", {"n": len(sigs)}, {"k": "ret", "sigs": sigs}, _cost=20000)
+    # several public-key objects alive at once: each verifies with its own key
+    ks = [CBitcoinSecret.from_secret_bytes(gen.rbytes(r, 32), bool(i & 1)) for i in range(3)]
+    dgs = [gen.rbytes(r, 32) for _ in ks]
+    sgs = [k_.sign(d_) for k_, d_ in zip(ks, dgs)]
+    pubs = [CPubKey(bytes(k_.pub)) for k_ in ks]            # all constructed first, used afterwards
+    for i_, pk in enumerate(pubs):
+        for j_ in range(len(pubs)):
+            kk, res = call(pk.verify, dgs[j_], sgs[j_])
+            R.add("key.verify", {"pub": b2l(pk), "digest": b2l(dgs[j_]), "sig": b2l(sgs[j_]), "case": "cross-object-%d-%d" % (i_, j_)},
+                  {"k": "ret", "res": bool(res)} if kk == "ret" else dict(exc_info(res), k="exc"), _cost=1000)
     # candidate public keys of 33 / 65 bytes
     bitcoin.SelectParams("mainnet")
     cand = []
